@@ -351,8 +351,11 @@ class Check:
             'assumptions': s.assumptions, 'wall_s': round(wall, 1), 'violations': len(s.violations),
         }
         ev['coverage'].update(s.extra)
-        os.makedirs(os.path.join(VERIF, 'evidence'), exist_ok=True)
-        with open(os.path.join(VERIF, 'evidence', f'{s.pid}.json'), 'w') as fh:
+        # evidence always goes to /verif/evidence, except when a seeded change is being evaluated on a scratch copy of the repository
+        # (tools_seed.py sets VERIF_EVIDENCE_DIR so that the committed evidence keeps describing the unchanged tree)
+        evdir = os.environ.get('VERIF_EVIDENCE_DIR') or os.path.join(VERIF, 'evidence')
+        os.makedirs(evdir, exist_ok=True)
+        with open(os.path.join(evdir, f'{s.pid}.json'), 'w') as fh:
             json.dump(ev, fh, indent=1, default=str)
         for k in s.known_hits:
             print(f'KNOWN-FINDING: property={s.pid} {k}')
